@@ -45,3 +45,12 @@ CHECKS["C13"] = dict(engine="faultspace", level="fault_enumeration", ref="DESIGN
     text=_F + "All strict rejections of the size, value and byte-substitution fault families, plus every fault moved to the end of the input (cut 0..2 bytes after the faulty field). Oracle: bytes(error.bytes_remaining) == input[reference offset:], and model-free: emitted field widths + consumed offending bytes + remaining == input length, remaining is a suffix.",
     note="The reference decoder defines 'consumed'; the accounting identity is independent of it.",
     technique="exhaustive fault enumeration incl. end-of-input placements, reference offsets + model-free byte accounting")
+ENGINES[-1]["serves_properties"] += ["C06", "C07"]
+CHECKS["C06"] = dict(engine="faultspace", level="fault_enumeration", ref="DESIGN.md 6 C06",
+    text=_F + "Byte-substitution closure (every offset x a stated substitute alphabet), every cut and suffix, both encryption flags for responses; cross-type closure: every default encoding decoded as every non-union type, as Command, as a stream and as Response(cc, flag) for every command code. Oracle (no model): the outcome is completion or one of the documented error classes, bytes pulled <= bytes available, events bounded linearly in the input (non-termination guard).",
+    note="Arbitrary byte strings are represented by the mutation closure of well-formed messages and by cross-type decoding, not by all strings up to a length; a Response is only decoded with a command code of the table. Known findings F8, F8b, F9 (known_findings.json).",
+    technique="exhaustive enumeration of single-byte mutations, truncations and cross-type decodes of bounded base cases; totality oracle")
+CHECKS["C07"] = dict(engine="faultspace", level="fault_enumeration", ref="DESIGN.md 6 C07",
+    text=_F + "Every base case and every size / value / cut / suffix / byte-substitution fault on it is decoded once in strict and once in warn mode by the real decoder. Relational oracle: events before the first warning == events before the raise (plus the offending event for a value problem), first warning wraps the same class with the same details, strict accepts <=> warn mode emits no warning (then identical events).",
+    note="No reference model is involved. Strict-mode internal errors (F8/F9) are skipped here and judged by C06.",
+    technique="exhaustive fault enumeration with a relational (two-run) oracle on the real code")
